@@ -261,10 +261,11 @@ Definition entry_obs (hmux : bool) (hm : hostmux) (rs : list router) (le : list 
 
 Definition hit_eqb (a b : Z * str) : bool := (fst a =? fst b)%Z && str_eqb (snd a) (snd b).
 
-(** leaves that ran, final class, [c.Rel()] afterwards (not recorded after a panic) *)
+(** leaves that ran, final class, [c.Rel()] afterwards - compared when every router missed (a
+    handler that serves may have walked the route on) *)
 Definition seq_eqb (a b : list (Z * str) * N * str) : bool :=
   let '(h1, f1, r1) := a in let '(h2, f2, r2) := b in
-  list_eqb hit_eqb h1 h2 && (f1 =? f2)%N && ((f1 =? 3)%N || str_eqb r1 r2).
+  list_eqb hit_eqb h1 h2 && (f1 =? f2)%N && (negb (f1 =? 1)%N || str_eqb r1 r2).
 
 (** what the regenerated source says about [C.RelRoute] *)
 Definition gen_relroute_acc : acc_kind := acc_of relroute_name gen_ctx_accessors.
@@ -276,6 +277,12 @@ Fixpoint writes_of (lw : list (N * (N * str))) (h : N) : option hwrite :=
   | [] => None
   | (t, (m, sg)) :: r =>
       if (t =? h)%N then Some (if (m =? 1)%N then w_fill sg else w_append1 sg) else writes_of r h
+  end.
+
+Fixpoint shifts_of (ls : list (N * nat)) (h : N) : nat :=
+  match ls with
+  | [] => 0%nat
+  | (t, k) :: r => if (t =? h)%N then k else shifts_of r h
   end.
 
 Inductive mstep :=
@@ -319,7 +326,8 @@ Fixpoint host_steps (m : hostmux) (l : list hstep) : bool :=
   end.
 
 Inductive ccase :=
-| CSeq (routers : list (list rop)) (le : list (N * N)) (lw : list (N * (N * str))) (roks : list (list N)) (is : list nat)
+| CSeq (routers : list (list rop)) (le : list (N * N)) (lw : list (N * (N * str))) (lsh : list (N * nat))
+       (roks : list (list N)) (is : list nat)
        (reqs : list (str * str)) (obs : list (list (Z * str) * N * str))
 | CMuxSteps (l : list mstep)
 | CRouterSteps (le : list (N * N)) (l : list rstep)
@@ -338,15 +346,17 @@ Definition find_eqb (a b : str * bool) : bool := str_eqb (fst a) (fst b) && Bool
 
 Definition check_case (c : ccase) : bool :=
   match c with
-  | CSeq defs le lw roks is reqs obs =>
+  | CSeq defs le lw lsh roks is reqs obs =>
       let built := map (router_obs new_router) defs in
       list_eqb (list_eqb N.eqb) (map snd built) roks &&
       list_eqb seq_eqb
         (map (fun q => serve_seq gen_dispatch_cond gen_method_reject le gen_router_wrap 8
                          (map fst built) is (new_ctx (fst q) (snd q))) reqs) obs &&
-      (* the same again with what the handlers write to the RelRoute they were handed *)
+      (* the same again with what the handlers write to the RelRoute they were handed and how far
+         they shift the route before declining *)
       list_eqb (fun a b => list_eqb hit_eqb (fst a) (fst b) && (snd a =? snd b)%N)
         (map (fun q => serve_seq_w gen_dispatch_cond gen_method_reject le gen_relroute_acc (writes_of lw)
+                         (shifts_of lsh) RestoreEntry
                          gen_router_wrap 8 (map fst built) is (new_ctx (fst q) (snd q))) reqs) (map fst obs)
   | CMuxSteps l => mux_steps new_mux l
   | CRouterSteps le l => router_steps le new_router l
